@@ -64,6 +64,19 @@ def analyse(ctx):
     # locals
     locs = {x['id']: x for x in walk(f) if x.get('kind') == 'VarDecl'}
     slot_ids, cachederived_ids, utc_ids, private_ids = set(), set(), set(), set()
+    # a local filled in through its address by a cache helper (FindLoaded(name, &impl)) holds what the cache holds
+    from .c20 import cache_helpers as _ch
+    H_ = _ch(G)
+    for x in walk(f):
+        if x.get('kind') == 'CallExpr' and callee(x) and callee(x)[0] == 'fn' and callee(x)[1].get('_qn'):
+            for tgk in G.resolve_decl(callee(x)[1]):
+                if tgk in H_ and H_[tgk].get('out_cache'):
+                    for ai_, a_ in enumerate(call_args(x)):
+                        pa_ = peel(a_)
+                        if ai_ in H_[tgk]['out_cache'] and pa_.get('kind') == 'UnaryOperator' and pa_.get('opcode') == '&':
+                            vid_ = (peel(kids(pa_)[0]).get('referencedDecl') or {}).get('id')
+                            if vid_ in locs:
+                                cachederived_ids.add(vid_)
     for i, d in locs.items():
         init = _init(d)
         if init is None:
